@@ -15,6 +15,15 @@ CHECKS = {
             'concrete counter-model. Says nothing about scripts the generator does not produce or larger models.',
             'Trusts vf/shadow.py + vf/holmodel.py (calibrated on all logic_base theorems at start-up), CPython.',
             'DESIGN.md 2 C01'),
+    'C02': ('event log of Theory._check_proof_item / Proof.find_item during real check_proof and checked_extend runs; '
+            'offline well-foundedness, yield, gap-report and truth-table oracles over the log',
+            'Exploration, exhaustive on a finite sub-space: all proofs of <= 2 items (quick) / <= 3 items (thorough) over the rule pool '
+            'x every id assignment x every citation list x stated sequent, plus random nested proofs and (stated theorem, proof) pairs '
+            'for checked_extend; each accepted proof is judged from the recorded log (citations resolved to earlier-verified visible '
+            'items, recorded sequents implied by the rule yield, no placeholder under no_gaps, gap report = placeholders) and '
+            'semantically (final sequent valid by truth table).',
+            'Trusts the log wrappers (class attributes, installed from the harness), the 4-rule reference yield on shadows, vf.holmodel.',
+            'DESIGN.md 2 C02'),
 }
 
 NOT_YET = {}
